@@ -1,27 +1,32 @@
 /-
 C01 (bytes) — the layout-table guards of `file_roundtrip` / `file_roundtrip_cff` DISCHARGED with
 C08's table-level adapter (Proofs/OtlInfoAdapter.lean, Proofs/OtlCodecs.lean): the decoders are no
-longer abstract but `Info.read` (header, script list, feature list, lookup list and every subtable
-through the real dispatchers `readGsubSubtable` / `readGposSubtable`) and `Gdef.read`; the guard
-becomes "the table bytes are what `Info.encode` / `GdefV.encode` wrote for a value of C08's domain".
+longer abstract but `Info.readGo` (Proofs/OtlInfoGo.lean: the model of `gtab.Read` itself — header,
+script list, feature list, `readLookupList` with the codec's subtable readers `readGsubSubtable` /
+`readGposSubtable`) and `Gdef.read`; the guard becomes "the table bytes are what `Info.encode` /
+`GdefV.encode` wrote for a value of C08's domain".
 
-Limits inherited from C08 (stated there): `Info.read` uses C08's specification reader of the
-lookup list (`LL.specRead`; its agreement with the Go reader is `C08_readlookuplist_sound` plus
-the correspondence streams), class-based subtables carry `PartGood` hypotheses inside
-`InfoOk`, GDEF is relational (`GdefV.Matches`).
+Limits inherited from C08 (stated there): the lookup-list reader has a budget (`BudgetOk`: lookups
++ subtables ≤ 6000, a clause of the domain); class tables come back in normal form
+(`ClassDef.nfTab`, inside the codecs' `nf`; one hypothesis `hal` remains inside `gsub_ok_C2`);
+GDEF round-trips as an equation (`gdef_roundtrip_eq`).  The decoded value enters the font model as
+the token of the table bytes.
 -/
 import SfntV.Proofs.FontFileCff
 import SfntV.Proofs.OtlCodecs
+import SfntV.Proofs.OtlInfoGo
 
 namespace SfntV.FontFile
 open SfntV SfntV.Font SfntV.Otl
 
 /-- the layout-table decoders of `Read`, concretely: `gdef.Read`, `gtab.Read(…, TypeGsub)`,
-`gtab.Read(…, TypeGpos)` in C08's model; the result is the token of the table -/
+`gtab.Read(…, TypeGpos)` in C08's model OF THE GO READER (`Info.readGo`: header, script list,
+feature list, `readLookupList` with its budget of 6000 lookups + subtables, the codec's subtable
+readers; Proofs/OtlInfoGo.lean); the result is the token of the table -/
 def layoutDec : LayoutDec :=
   { gdef := InfoA.gdefTok tokenOfBytes,
-    gsub := InfoA.decTok InfoA.gsubCodec 7 tokenOfBytes,
-    gpos := InfoA.decTok InfoA.gposCodec 9 tokenOfBytes }
+    gsub := InfoA.decTokGo InfoA.gsubCodec 7 tokenOfBytes,
+    gpos := InfoA.decTokGo InfoA.gposCodec 9 tokenOfBytes }
 
 /-- the decoder used to state the remaining guards: it accepts everything -/
 def anyLayoutDec : LayoutDec :=
@@ -33,9 +38,9 @@ value in the domain of C08's round-trip theorem -/
 structure LayoutOk (gdef gsub gpos : Option Bytes) : Prop where
   gdef : ∀ b, gdef = some b → ∃ g : InfoA.GdefV, InfoA.GdefOk g ∧ g.encode = .ok b
   gsub : ∀ b, gsub = some b → ∃ I : InfoA.Info InfoA.GsubSub,
-    InfoA.InfoOk InfoA.gsubCodec 7 I ∧ InfoA.Info.encode InfoA.gsubCodec I = .ok b
+    InfoA.InfoOk InfoA.gsubCodec 7 I ∧ InfoA.BudgetOk I ∧ InfoA.Info.encode InfoA.gsubCodec I = .ok b
   gpos : ∀ b, gpos = some b → ∃ I : InfoA.Info InfoA.GposSub,
-    InfoA.InfoOk InfoA.gposCodec 9 I ∧ InfoA.Info.encode InfoA.gposCodec I = .ok b
+    InfoA.InfoOk InfoA.gposCodec 9 I ∧ InfoA.BudgetOk I ∧ InfoA.Info.encode InfoA.gposCodec I = .ok b
 
 theorem layout_gdef {gd gs gp : Option Bytes} (h : LayoutOk gd gs gp) :
     ∀ b, gd = some b → b ≠ [] ∧ layoutDec.gdef b = .ok (tokenOfBytes b) := by
@@ -46,14 +51,14 @@ theorem layout_gdef {gd gs gp : Option Bytes} (h : LayoutOk gd gs gp) :
 theorem layout_gsub {gd gs gp : Option Bytes} (h : LayoutOk gd gs gp) :
     ∀ b, gs = some b → b ≠ [] ∧ layoutDec.gsub b = .ok (tokenOfBytes b) := by
   intro b hb
-  obtain ⟨I, hI, he⟩ := h.gsub b hb
-  exact InfoA.decTok_encode InfoA.gsubCodec 7 tokenOfBytes I hI b he
+  obtain ⟨I, hI, hB, he⟩ := h.gsub b hb
+  exact InfoA.decTokGo_encode InfoA.gsubCodec 7 tokenOfBytes I hI hB b he
 
 theorem layout_gpos {gd gs gp : Option Bytes} (h : LayoutOk gd gs gp) :
     ∀ b, gp = some b → b ≠ [] ∧ layoutDec.gpos b = .ok (tokenOfBytes b) := by
   intro b hb
-  obtain ⟨I, hI, he⟩ := h.gpos b hb
-  exact InfoA.decTok_encode InfoA.gposCodec 9 tokenOfBytes I hI b he
+  obtain ⟨I, hI, hB, he⟩ := h.gpos b hb
+  exact InfoA.decTokGo_encode InfoA.gposCodec 9 tokenOfBytes I hI hB b he
 
 /-- The domain with the layout guards discharged: `core` collects every guard of `InDomainFile`
 that does not concern the layout tables (stated with the all-accepting decoder, for which the
